@@ -254,7 +254,10 @@ func genLeakPair(r *Rng) ([]byte, []byte) {
 }
 
 func genLeakPair0(r *Rng) ([]byte, []byte) {
-	p := pick(r, leakPairs)
+	return genLeakPairOf(r, pick(r, leakPairs))
+}
+
+func genLeakPairOf(r *Rng, p [2]string) ([]byte, []byte) {
 	// Same sub-stream for both halves in half of the cases, so that both use the same
 	// labels / heading texts / footnote names.
 	sub := r.Next()
@@ -450,10 +453,58 @@ func byteLevel(r *Rng, d []byte) []byte {
 	return d
 }
 
-// herd: k documents of the same construct family with different parameters.
-var herdFamilies = []string{"unilabel", "fence", "list", "link", "refdef", "emph", "table", "footnote", "heading", "typo", "openend", "entity", "quote", "deflist", "attr", "html"}
+// genComposite: one document made of k different construct families. Used where a single
+// conversion should touch as many corners of the library as possible (a process's very first
+// conversions: everything initialised lazily at package level is first used there).
+func genComposite(r *Rng, k int) []byte {
+	var b bytes.Buffer
+	b.Write(genHeadingDoc(r))
+	for i := 0; i < k; i++ {
+		b.WriteString("\n")
+		b.Write(genFamily(r, pick(r, families)))
+	}
+	return b.Bytes()
+}
 
-func genHerd(r *Rng, c *Corpus, k int) [][]byte {
+// herd: k documents of the same construct family with different parameters.
+var herdFamilies = []string{"footuse", "linkify", "strike", "tasklist", "cjk", "unilabel", "fence", "list", "link", "refdef", "emph", "table", "footnote", "heading", "typo", "openend", "entity", "quote", "deflist", "attr", "html"}
+
+// biasConfig switches on what a construct family needs in order to mean anything (a herd of
+// footnote documents on an instance without the Footnote extension explores nothing), and
+// with it, half of the time, one of the extension's non-default options.
+func biasConfig(r *Rng, c Config, fam string) Config {
+	switch fam {
+	case "footnote", "footuse":
+		c.Footnote = true
+		if r.Chance(1, 2) {
+			c.FootnoteOpt = pick(r, []string{"prefix", "prefixfn", "titles"})
+		}
+	case "table", "strike", "tasklist", "linkify":
+		c.GFM = true
+		if fam == "table" && r.Chance(1, 2) {
+			c.TableAlign = pick(r, []string{"style", "attribute", "none"})
+		}
+		if fam == "linkify" && r.Chance(1, 2) {
+			c.LinkifyOpt = pick(r, []string{"protocols", "regexp"})
+		}
+	case "typo":
+		c.Typographer = true
+		c.TypoSubs = r.Chance(1, 3)
+	case "heading":
+		c.AutoID = true
+	case "attr":
+		c.Attribute = true
+	case "deflist":
+		c.DefList = true
+	case "cjk":
+		if c.CJK == "" {
+			c.CJK = pick(r, []string{"default", "css3", "escaped"})
+		}
+	}
+	return c
+}
+
+func genHerd(r *Rng, c *Corpus, k int) ([][]byte, string) {
 	fam := pick(r, herdFamilies)
 	out := make([][]byte, k)
 	for i := range out {
@@ -465,5 +516,5 @@ func genHerd(r *Rng, c *Corpus, k int) [][]byte {
 			out[i] = genFamily(r, fam)
 		}
 	}
-	return out
+	return out, fam
 }
